@@ -182,13 +182,43 @@ fn process_file_into(
         {
             let grammar = parse_and_normalize_grammar(&session, &file_text)?;
             let buffer = emit_recursive_ascent(&session, &grammar, report_file)?;
-            let mut output_file = fs::File::create(rs_file)?;
-            writeln!(output_file, "{LALRPOP_VERSION_HEADER}")?;
-            writeln!(output_file, "{}", hash_file(lalrpop_file)?)?;
-            output_file.write_all(&buffer)?;
+
+            // The two header lines are all that `needs_rebuild` looks at, so
+            // they must never become visible at `rs_file` before the body is
+            // complete: a build that is interrupted half way (killed, disk
+            // full) would otherwise leave a truncated file behind that every
+            // later build considers up to date. So write to a temporary
+            // sibling and rename it into place once it is complete. The old
+            // `rs_file` was removed above, *before* the report was written,
+            // so an interrupted build always leaves `rs_file` absent and the
+            // next build regenerates both files.
+            let tmp_file = tmp_output_file(rs_file);
+            let result = write_output_file(&tmp_file, lalrpop_file, &buffer)
+                .and_then(|()| fs::rename(&tmp_file, rs_file));
+            if result.is_err() {
+                let _ = fs::remove_file(&tmp_file);
+            }
+            result?;
         }
     }
     Ok(())
+}
+
+/// The file that receives the output while it is being written: a sibling of
+/// `rs_file` (so that the final rename stays on one file system) whose name is
+/// private to this process and never ends in `.rs`, so that a leftover of an
+/// interrupted build cannot be mistaken for generated code.
+fn tmp_output_file(rs_file: &Path) -> PathBuf {
+    let mut name = rs_file.file_name().unwrap_or_default().to_os_string();
+    name.push(format!(".{}.tmp", std::process::id()));
+    rs_file.with_file_name(name)
+}
+
+fn write_output_file(output_file: &Path, lalrpop_file: &Path, buffer: &[u8]) -> io::Result<()> {
+    let mut output_file = fs::File::create(output_file)?;
+    writeln!(output_file, "{LALRPOP_VERSION_HEADER}")?;
+    writeln!(output_file, "{}", hash_file(lalrpop_file)?)?;
+    output_file.write_all(buffer)
 }
 
 fn remove_old_file(rs_file: &Path) -> io::Result<()> {
